@@ -760,7 +760,9 @@ func (s *blobStore) Fetch(ctx context.Context, target ocispec.Descriptor) (rc io
 		// However, the remote server may still not RFC 7233 compliant.
 		// Reference: https://docs.docker.com/registry/spec/api/#blob
 		if rangeUnit := resp.Header.Get("Accept-Ranges"); rangeUnit == "bytes" {
-			return httputil.NewReadSeekCloser(s.repo.client(), req, resp.Body, target.Size), nil
+			return httputil.NewVerifiedReadSeekCloser(s.repo.client(), req, resp.Body, target.Size, func(resp *http.Response) error {
+				return verifyContentDigest(resp, target.Digest)
+			}), nil
 		}
 		return resp.Body, nil
 	case http.StatusNotFound:
@@ -1021,7 +1023,9 @@ func (s *blobStore) FetchReference(ctx context.Context, reference string) (desc 
 		// However, the remote server may still not RFC 7233 compliant.
 		// Reference: https://docs.docker.com/registry/spec/api/#blob
 		if rangeUnit := resp.Header.Get("Accept-Ranges"); rangeUnit == "bytes" {
-			return desc, httputil.NewReadSeekCloser(s.repo.client(), req, resp.Body, desc.Size), nil
+			return desc, httputil.NewVerifiedReadSeekCloser(s.repo.client(), req, resp.Body, desc.Size, func(resp *http.Response) error {
+				return verifyContentDigest(resp, refDigest)
+			}), nil
 		}
 		return desc, resp.Body, nil
 	case http.StatusNotFound:
